@@ -88,6 +88,9 @@ func (bucket *Bucket) _closeSqliteDB() {
 
 // Closes a bucket and deletes its directory and files (unless it's in-memory.)
 func (bucket *Bucket) CloseAndDelete(ctx context.Context) (err error) {
+	// Stop the expiry manager before taking the bucket mutex: its timer callback holds the expiry mutex while it
+	// takes the bucket mutex, so waiting for it (stop) with the bucket mutex held would deadlock.
+	bucket.expManager.stop()
 	bucket.mutex.Lock()
 	defer bucket.mutex.Unlock()
 	bucket._closeSqliteDB()
